@@ -29,6 +29,7 @@ struct Opts {
     jobs: usize,
     repo: String,
     verif: PathBuf,
+    out: PathBuf,
     file: Option<String>,
     runs: Option<usize>,
     budget: Option<Duration>,
@@ -44,6 +45,7 @@ fn parse_opts() -> Opts {
         jobs: std::env::var("VERIF_JOBS").ok().and_then(|s| s.parse().ok()).unwrap_or(0),
         repo: std::env::var("VERIF_REPO").unwrap_or_else(|_| "/repo".into()),
         verif: PathBuf::from(std::env::var("VERIF_DIR").unwrap_or_else(|_| "/verif".into())),
+        out: PathBuf::from(std::env::var("VERIF_OUT").unwrap_or_else(|_| std::env::var("VERIF_DIR").unwrap_or_else(|_| "/verif".into()))),
         file: None,
         runs: std::env::var("VERIF_RUNS").ok().and_then(|s| s.parse().ok()),
         budget: std::env::var("VERIF_BUDGET_S").ok().and_then(|s| s.parse().ok()).map(Duration::from_secs),
@@ -135,7 +137,9 @@ fn setup(o: &Opts, scratch: &Path) -> Result<Ctx, String> {
 
     // foreign index
     let foreign = scratch.join("foreign-index");
-    dirstate::build_foreign(&foreign, &shipped).unwrap_or_else(|e| harness_fail(&format!("foreign index: {e}")));
+    dirstate::build_foreign(&foreign, &shipped, false).unwrap_or_else(|e| harness_fail(&format!("foreign index: {e}")));
+    let foreign_schema = scratch.join("foreign-schema-index");
+    dirstate::build_foreign(&foreign_schema, &shipped, true).unwrap_or_else(|e| harness_fail(&format!("foreign index: {e}")));
 
     // clean reference start (one CPU, canonical plan)
     let gold = Paths::new(scratch.join("gold").join("xdg"));
@@ -169,7 +173,7 @@ fn setup(o: &Opts, scratch: &Path) -> Result<Ctx, String> {
     }
     let gold_index = scratch.join("gold-index");
     dirstate::copy_dir(&gold.index(), &gold_index).unwrap_or_else(|e| harness_fail(&e.to_string()));
-    let reference = Reference { meta_text: info.meta_text.clone().unwrap_or_default(), version, hash, gold_index, foreign_index: foreign };
+    let reference = Reference { meta_text: info.meta_text.clone().unwrap_or_default(), version, hash, gold_index, foreign_index: foreign, foreign_schema_index: foreign_schema };
     Ok(Ctx {
         launcher,
         repo: o.repo.clone(),
@@ -481,7 +485,7 @@ fn load_findings(verif: &Path) -> Vec<Finding> {
 // ---------------------------------------------------------------------------------------------
 
 fn write_replay(o: &Opts, h: &History, v: &Violation, extra: Value) -> PathBuf {
-    let dir = o.verif.join("replays");
+    let dir = o.out.join("replays");
     let _ = std::fs::create_dir_all(&dir);
     let path = dir.join(format!("{}-{}-{:016x}.json", h.property, o.seed, history_hash(h)));
     let doc = json!({
@@ -841,7 +845,7 @@ fn write_evidence(o: &Opts, prop: &str, st: &Stats, violations: usize, t0: Insta
         "wall_s": wall,
         "violations": violations
     });
-    let dir = o.verif.join("evidence");
+    let dir = o.out.join("evidence");
     let _ = std::fs::create_dir_all(&dir);
     let path = dir.join(format!("{prop}.json"));
     if let Err(e) = std::fs::write(&path, serde_json::to_vec_pretty(&ev).unwrap()) {
